@@ -5,6 +5,7 @@
 import VotelibModel.QuotaDist
 import VotelibModel.Gen.Quota
 import VotelibProofs.Lemmas.NBest
+import VotelibProofs.Props.C09
 import Mathlib.Data.Rat.Floor
 import Mathlib.Data.Rat.Lemmas
 import Mathlib.Algebra.Order.Floor.Ring
@@ -119,7 +120,7 @@ theorem getK_nil (k : Key) (d : Int) : getK [] k d = d := rfl
 theorem getK_cons (p : Key × Int) (s : Sel) (k : Key) (d : Int) :
     getK (p :: s) k d = if p.1 = k then p.2 else getK s k d := by
   unfold getK
-  simp only [List.find?_cons]
+  rw [List.find?_cons]
   by_cases h : p.1 = k <;> simp [h]
 
 theorem hasK_cons (p : Key × Int) (s : Sel) (k : Key) :
@@ -129,9 +130,6 @@ theorem hasK_cons (p : Key × Int) (s : Sel) (k : Key) :
 theorem hasK_iff (s : Sel) (k : Key) : hasK s k = true ↔ k ∈ s.map (·.1) := by
   unfold hasK
   simp only [List.any_eq_true, decide_eq_true_eq, List.mem_map]
-  constructor
-  · rintro ⟨p, hp, rfl⟩; exact ⟨p, hp, rfl⟩
-  · rintro ⟨p, hp, rfl⟩; exact ⟨p, hp, rfl⟩
 
 theorem getK_of_not_hasK {s : Sel} {k : Key} (h : hasK s k = false) (d : Int) : getK s k d = d := by
   induction s with
@@ -179,8 +177,11 @@ theorem keys_setK (s : Sel) (k : Key) (v : Int) :
     simp only [setK, hasK_cons]
     by_cases hp : p.1 = k
     · simp [hp]
-    · simp only [if_neg hp, List.map_cons, ih, hp, decide_false, Bool.false_or]
-      split <;> simp
+    · rw [if_neg hp, List.map_cons, ih]
+      simp only [hp, decide_false, Bool.false_or]
+      by_cases hk : hasK ps k = true
+      · simp [hk]
+      · simp [hk]
 
 theorem hasK_setK (s : Sel) (k k' : Key) (v : Int) :
     hasK (setK s k v) k' = (hasK s k' || decide (k = k')) := by
@@ -221,16 +222,15 @@ theorem sumK_setK (s : Sel) (k : Key) (v : Int) : sumK (setK s k v) = sumK s - g
   | cons p ps ih =>
     simp only [setK]
     by_cases hp : p.1 = k
-    · rw [if_pos hp, sumK_cons, sumK_cons, getK_cons, if_pos hp]; simp
+    · rw [if_pos hp, sumK_cons, sumK_cons, getK_cons, if_pos hp]
+      show v + sumK ps = p.2 + sumK ps - p.2 + v
+      ring
     · rw [if_neg hp, sumK_cons, sumK_cons, getK_cons, if_neg hp, ih]; ring
 
 theorem keys_delK (s : Sel) (k : Key) : (delK s k).map (·.1) = (s.map (·.1)).filter (fun x => x ≠ k) := by
   unfold delK
-  induction s with
-  | nil => rfl
-  | cons p ps ih =>
-    simp only [List.filter_cons, List.map_cons]
-    by_cases hp : p.1 = k <;> simp [hp, ih]
+  rw [List.filter_map]
+  rfl
 
 theorem KNodup_delK {s : Sel} (h : KNodup s) (k : Key) : KNodup (delK s k) := by
   unfold KNodup at *
@@ -251,7 +251,7 @@ theorem sumK_delK {s : Sel} (h : KNodup s) (k : Key) : sumK (delK s k) = sumK s 
         simp only [hp, ne_eq, not_true_eq_false, decide_false, Bool.false_eq_true, if_false]
         rw [List.filter_eq_self]
         intro a ha
-        simp only [ne_eq, decide_not, Bool.not_eq_eq_eq_not, Bool.not_true, decide_eq_false_iff_not]
+        simp only [decide_not, Bool.not_eq_eq_eq_not, Bool.not_true, decide_eq_false_iff_not]
         intro e
         have : k ∈ ps.map (·.1) := List.mem_map.mpr ⟨a, ha, e⟩
         exact hnot (hp ▸ this)
@@ -271,6 +271,765 @@ theorem KNodup_decK {s : Sel} (h : KNodup s) (k : Key) : KNodup (decK s k) := by
   split
   · exact KNodup_delK h k
   · exact KNodup_setK h k _
+
+theorem hasK_append (s t : Sel) (k : Key) : hasK (s ++ t) k = (hasK s k || hasK t k) := by
+  simp [hasK]
+
+/-! ### the whole-quota loop when no cap binds -/
+
+/-- textbook whole quotas: `⌊v / q⌋`, except that a party exactly on the quota gets none when
+    `accept_equal` is off -/
+def wholeQ (q : Rat) (ae : Bool) (v : Rat) : Int := if v = q ∧ ae = false then 0 else ⌊v / q⌋
+
+/-- seats awarded for whole quotas: what is not yet covered by previous gains -/
+def wholeAward (q : Rat) (ae : Bool) (prev : IMap) (p : Cand × Rat) : Int :=
+  max (wholeQ q ae p.2 - getI prev p.1 0) 0
+
+/-- the dict of whole-quota awards (parties with a positive award, in the order of `votes`) -/
+def wholeSel (q : Rat) (ae : Bool) (prev : IMap) (votes : Votes) : Sel :=
+  votes.filterMap (fun p => if 0 < wholeAward q ae prev p then some (Key.cand p.1, wholeAward q ae prev p) else none)
+
+/-- the award as the code computes it (L229-235) -/
+def awardOf (q : Rat) (ae : Bool) (prev : IMap) (p : Cand × Rat) : Option (Key × Int) :=
+  if fulfills q ae p.2 = true ∧ 0 < Py.pyInt (p.2 / q) - getI prev p.1 0 then
+    some (Key.cand p.1, Py.pyInt (p.2 / q) - getI prev p.1 0)
+  else none
+
+/-- the test of L237 fails for `p`: neither `max_seats` nor the default cap `n_seats` binds on its whole quotas -/
+def NoBindCode (q : Rat) (ae : Bool) (n : Int) (prev maxS : IMap) (p : Cand × Rat) : Prop :=
+  fulfills q ae p.2 = true → 0 < Py.pyInt (p.2 / q) - getI prev p.1 0 → Py.pyInt (p.2 / q) ≤ getI maxS p.1 n
+
+theorem wholeStep_noBind {q : Rat} (hq : q ≠ 0) (ae : Bool) (n : Int) (prev maxS : IMap) (st : WState)
+    (p : Cand × Rat) (hnb : NoBindCode q ae n prev maxS p) (hk : hasK st.selected (.cand p.1) = false) :
+    wholeStep q ae n prev maxS st p =
+      .ok { st with selected := st.selected ++ (awardOf q ae prev p).toList } := by
+  unfold wholeStep awardOf
+  simp only
+  by_cases hf : fulfills q ae p.2 = true
+  · rw [if_pos hf, if_neg hq]
+    by_cases hpos : Py.pyInt (p.2 / q) - getI prev p.1 0 > 0
+    · have hle := hnb hf hpos
+      rw [if_pos hpos, if_neg (by omega), if_pos ⟨hf, hpos⟩, setK_of_not_hasK hk]
+      rfl
+    · rw [if_neg hpos, if_neg (fun h => hpos h.2)]
+      simp
+  · rw [if_neg hf, if_neg (fun h => hf h.1)]
+    simp
+
+theorem wholeLoop_noBind {q : Rat} (hq : q ≠ 0) (ae : Bool) (n : Int) (prev maxS : IMap) (votes : Votes) :
+    ∀ (st : WState), (∀ p ∈ votes, NoBindCode q ae n prev maxS p) → (votes.map (·.1)).Nodup →
+      (∀ p ∈ votes, hasK st.selected (.cand p.1) = false) →
+      wholeLoop q ae n prev maxS st votes =
+        .ok ⟨st.selected ++ votes.filterMap (awardOf q ae prev), st.nOvershot, st.overshot⟩ := by
+  induction votes with
+  | nil => intro st _ _ _; simp [wholeLoop]
+  | cons p ps ih =>
+    intro st hnb hnd hk
+    have hnd' := List.nodup_cons.mp hnd
+    unfold wholeLoop
+    rw [wholeStep_noBind hq ae n prev maxS st p (hnb p List.mem_cons_self) (hk p List.mem_cons_self)]
+    simp only
+    rw [ih _ (fun x hx => hnb x (List.mem_cons_of_mem _ hx)) hnd'.2]
+    · simp only [List.filterMap_cons]
+      cases h : awardOf q ae prev p <;> simp
+    · intro x hx
+      simp only [hasK_append, Bool.or_eq_false_iff]
+      refine ⟨hk x (List.mem_cons_of_mem _ hx), ?_⟩
+      have hne : x.1 ≠ p.1 := by
+        intro e
+        exact hnd'.1 (List.mem_map.mpr ⟨x, hx, e⟩)
+      unfold awardOf
+      split
+      · simp [hasK, Ne.symm hne]
+      · simp [hasK]
+
+/-- for non-negative votes and a positive quota the code's arithmetic is the textbook one -/
+theorem awardOf_eq_textbook {q : Rat} (hq : 0 < q) (ae : Bool) (prev : IMap) (p : Cand × Rat)
+    (hv : 0 ≤ p.2) (hp : 0 ≤ getI prev p.1 0) :
+    awardOf q ae prev p =
+      if 0 < wholeAward q ae prev p then some (Key.cand p.1, wholeAward q ae prev p) else none := by
+  unfold awardOf wholeAward wholeQ fulfills
+  have hdiv : 0 ≤ p.2 / q := div_nonneg hv (le_of_lt hq)
+  by_cases hf : (decide (q < p.2) || (ae && decide (p.2 = q))) = true
+  · have hne : ¬ (p.2 = q ∧ ae = false) := by
+      rintro ⟨h1, h2⟩
+      simp [h1, h2] at hf
+    rw [if_neg hne, pyInt_nonneg hdiv]
+    by_cases hpos : 0 < ⌊p.2 / q⌋ - getI prev p.1 0
+    · rw [if_pos ⟨hf, hpos⟩, max_eq_left (le_of_lt hpos), if_pos hpos]
+    · rw [if_neg (fun h => hpos h.2), max_eq_right (not_lt.mp hpos), if_neg (lt_irrefl 0)]
+  · rw [if_neg (fun h => hf h.1)]
+    have hzero : (if p.2 = q ∧ ae = false then (0 : Int) else ⌊p.2 / q⌋) = 0 := by
+      split
+      · rfl
+      · rename_i hne
+        simp only [Bool.or_eq_true, decide_eq_true_eq, Bool.and_eq_true, not_or, not_lt, not_and] at hf
+        have hlt : p.2 < q := by
+          rcases lt_or_eq_of_le hf.1 with h | h
+          · exact h
+          · exfalso
+            apply hne
+            refine ⟨h, ?_⟩
+            cases ae
+            · rfl
+            · exact absurd h (hf.2 rfl)
+        rw [Int.floor_eq_iff]
+        constructor
+        · simpa using hdiv
+        · simp only [Int.cast_zero, zero_add]
+          rw [div_lt_one hq]; exact hlt
+    rw [hzero, max_eq_right (by omega), if_neg (lt_irrefl 0)]
+
+theorem pyInt_eq_wholeQ {q : Rat} (hq : 0 < q) {ae : Bool} {v : Rat} (hv : 0 ≤ v)
+    (hf : fulfills q ae v = true) : Py.pyInt (v / q) = wholeQ q ae v := by
+  unfold wholeQ
+  have hne : ¬ (v = q ∧ ae = false) := by
+    rintro ⟨h1, h2⟩
+    simp [fulfills, h1, h2] at hf
+  rw [if_neg hne, pyInt_nonneg (div_nonneg hv (le_of_lt hq))]
+
+theorem wholeQ_nonneg {q : Rat} (hq : 0 < q) (ae : Bool) {v : Rat} (hv : 0 ≤ v) : 0 ≤ wholeQ q ae v := by
+  unfold wholeQ
+  split
+  · exact le_refl _
+  · exact Int.floor_nonneg.mpr (div_nonneg hv (le_of_lt hq))
+
+theorem filterMap_awardOf_eq {q : Rat} (hq : 0 < q) (ae : Bool) (prev : IMap) (votes : Votes)
+    (hv : ∀ p ∈ votes, 0 ≤ p.2) (hp : ∀ c, 0 ≤ getI prev c 0) :
+    votes.filterMap (awardOf q ae prev) = wholeSel q ae prev votes := by
+  unfold wholeSel
+  apply List.filterMap_congr
+  intro p hpm
+  exact awardOf_eq_textbook hq ae prev p (hv p hpm) (hp p.1)
+
+theorem wholeSel_cons (q : Rat) (ae : Bool) (prev : IMap) (x : Cand × Rat) (xs : Votes) :
+    wholeSel q ae prev (x :: xs) =
+      if 0 < wholeAward q ae prev x then (Key.cand x.1, wholeAward q ae prev x) :: wholeSel q ae prev xs
+      else wholeSel q ae prev xs := by
+  unfold wholeSel
+  rw [List.filterMap_cons]
+  split <;> rename_i h
+  · split at h
+    · cases h
+    · rename_i h'; rw [if_neg h']
+  · split at h
+    · rename_i h'; rw [if_pos h']; injection h with h; rw [← h]
+    · cases h
+
+theorem keys_wholeSel (q : Rat) (ae : Bool) (prev : IMap) (votes : Votes) :
+    (wholeSel q ae prev votes).map (·.1) =
+      (votes.filter (fun p => decide (0 < wholeAward q ae prev p))).map (fun p => Key.cand p.1) := by
+  induction votes with
+  | nil => rfl
+  | cons x xs ih =>
+    rw [wholeSel_cons, List.filter_cons]
+    by_cases h : 0 < wholeAward q ae prev x
+    · simp [h, ih]
+    · simp [h, ih]
+
+theorem mem_keys_wholeSel {q : Rat} {ae : Bool} {prev : IMap} {votes : Votes} {k : Key}
+    (h : k ∈ (wholeSel q ae prev votes).map (·.1)) : ∃ p ∈ votes, k = Key.cand p.1 := by
+  rw [keys_wholeSel] at h
+  obtain ⟨p, hp, rfl⟩ := List.mem_map.mp h
+  exact ⟨p, (List.mem_filter.mp hp).1, rfl⟩
+
+theorem KNodup_wholeSel (q : Rat) (ae : Bool) (prev : IMap) (votes : Votes)
+    (hnd : (votes.map (·.1)).Nodup) : KNodup (wholeSel q ae prev votes) := by
+  unfold KNodup
+  rw [keys_wholeSel]
+  have h1 : ((votes.filter (fun p => decide (0 < wholeAward q ae prev p))).map (·.1)).Nodup :=
+    List.Nodup.sublist (List.Sublist.map _ List.filter_sublist) hnd
+  have : (votes.filter (fun p => decide (0 < wholeAward q ae prev p))).map (fun p => Key.cand p.1)
+      = ((votes.filter (fun p => decide (0 < wholeAward q ae prev p))).map (·.1)).map Key.cand := by
+    rw [List.map_map]; rfl
+  rw [this]
+  exact List.Nodup.map (fun a b h => by injection h) h1
+
+theorem wholeAward_nonneg (q : Rat) (ae : Bool) (prev : IMap) (p : Cand × Rat) : 0 ≤ wholeAward q ae prev p :=
+  le_max_right _ _
+
+theorem getK_wholeSel (q : Rat) (ae : Bool) (prev : IMap) (votes : Votes) (hnd : (votes.map (·.1)).Nodup)
+    (p : Cand × Rat) (hp : p ∈ votes) :
+    getK (wholeSel q ae prev votes) (.cand p.1) 0 = wholeAward q ae prev p := by
+  induction votes with
+  | nil => cases hp
+  | cons x xs ih =>
+    have hnd' := List.nodup_cons.mp hnd
+    rw [wholeSel_cons]
+    rcases List.mem_cons.mp hp with rfl | hpx
+    · by_cases h : 0 < wholeAward q ae prev p
+      · rw [if_pos h, getK_cons]; simp
+      · rw [if_neg h]
+        have hz : wholeAward q ae prev p = 0 := le_antisymm (not_lt.mp h) (wholeAward_nonneg _ _ _ _)
+        rw [hz]
+        apply getK_of_not_hasK
+        rw [← Bool.not_eq_true]
+        intro hh
+        obtain ⟨p', hp', he⟩ := mem_keys_wholeSel ((hasK_iff _ _).mp hh)
+        injection he with he
+        exact hnd'.1 (List.mem_map.mpr ⟨p', hp', he.symm⟩)
+    · have hne : x.1 ≠ p.1 := fun e => hnd'.1 (List.mem_map.mpr ⟨p, hpx, e.symm⟩)
+      by_cases h : 0 < wholeAward q ae prev x
+      · rw [if_pos h, getK_cons, if_neg (by intro e; injection e with e; exact hne e)]
+        exact ih hnd'.2 hpx
+      · rw [if_neg h]; exact ih hnd'.2 hpx
+
+/-- `QuotaDistributor.evaluate` when no cap binds on the whole quotas: the recursion is never entered -/
+theorem quotaDistribute_noBind (cfg : Cfg) (votes : Votes) (n : Nat) (prev maxS : IMap)
+    (hq : cfg.quota (sumVals votes) n ≠ 0)
+    (hnb : ∀ p ∈ votes, NoBindCode (cfg.quota (sumVals votes) n) cfg.acceptEqual (n : Int) prev maxS p)
+    (hnd : (votes.map (·.1)).Nodup) :
+    quotaDistribute cfg votes n prev maxS =
+      applyPolicy cfg votes n prev (votes.filterMap (awardOf (cfg.quota (sumVals votes) n) cfg.acceptEqual prev)) := by
+  have hbody : ∀ recur, qdBody cfg recur votes n prev maxS =
+      applyPolicy cfg votes n prev (votes.filterMap (awardOf (cfg.quota (sumVals votes) n) cfg.acceptEqual prev)) := by
+    intro recur
+    unfold qdBody
+    simp only
+    rw [wholeLoop_noBind hq cfg.acceptEqual (n : Int) prev maxS votes ⟨[], 0, []⟩ hnb hnd
+      (fun _ _ => rfl)]
+    simp
+  unfold quotaDistribute
+  cases votes.length with
+  | zero => exact hbody _
+  | succ k => exact hbody _
+
+/-! ### the subtract loop -/
+
+theorem foldl_decK_sum (cs : List Cand) : ∀ (s : Sel), KNodup s →
+    sumK (cs.foldl (fun acc c => decK acc (.cand c)) s) = sumK s - cs.length ∧
+    KNodup (cs.foldl (fun acc c => decK acc (.cand c)) s) := by
+  induction cs with
+  | nil => intro s h; simp [h]
+  | cons c cs ih =>
+    intro s h
+    simp only [List.foldl_cons, List.length_cons]
+    obtain ⟨h1, h2⟩ := ih (decK s (.cand c)) (KNodup_decK h _)
+    refine ⟨?_, h2⟩
+    rw [h1, sumK_decK h]; push_cast; ring
+
+/-- every successful pass of the `while` body withdraws exactly one seat -/
+theorem subtractStep_sum (votes : Votes) (q : Rat) (prev : IMap) (sel sel' : Sel) (hn : KNodup sel)
+    (h : subtractStep votes q prev sel = .ok sel') : sumK sel' = sumK sel - 1 ∧ KNodup sel' := by
+  unfold subtractStep at h
+  split at h
+  · cases h
+  · injection h with h; subst h
+    exact ⟨sumK_decK hn _, KNodup_decK hn _⟩
+  · simp only at h
+    split at h
+    · cases h
+    · rename_i cs _
+      split at h
+      · injection h with h; subst h
+        exact ⟨sumK_decK hn _, KNodup_decK hn _⟩
+      · injection h with h; subst h
+        obtain ⟨h1, h2⟩ := foldl_decK_sum cs sel hn
+        refine ⟨?_, KNodup_setK h2 _ _⟩
+        rw [sumK_setK, h1]; ring
+
+theorem subtractLoop_sum (votes : Votes) (q : Rat) (prev : IMap) (k : Nat) :
+    ∀ (sel r : Sel), KNodup sel → subtractLoop votes q prev k sel = .ok r →
+      sumK r = sumK sel - k ∧ KNodup r := by
+  induction k with
+  | zero =>
+    intro sel r hn h
+    unfold subtractLoop at h
+    injection h with h; subst h
+    simp [hn]
+  | succ k ih =>
+    intro sel r hn h
+    unfold subtractLoop at h
+    split at h
+    · rename_i sel' hs
+      obtain ⟨h1, h2⟩ := subtractStep_sum votes q prev sel sel' hn hs
+      obtain ⟨h3, h4⟩ := ih sel' r h2 h
+      refine ⟨?_, h4⟩
+      rw [h3, h1]; push_cast; ring
+    · cases h
+
+/-! ### the remainder stage of `LargestRemainder` -/
+
+theorem sumK_addDict (b : Sel) : ∀ a : Sel, sumK (addDict a b) = sumK a + sumK b := by
+  induction b with
+  | nil => intro a; simp [addDict, sumK_nil]
+  | cons x xs ih =>
+    intro a
+    have : addDict a (x :: xs) = addDict (setK a x.1 (getK a x.1 0 + x.2)) xs := rfl
+    rw [this, ih, sumK_setK, sumK_cons]; ring
+
+theorem getI_nil (c : Cand) (d : Int) : getI [] c d = d := rfl
+
+theorem getI_cons (x : Cand × Int) (xs : IMap) (c : Cand) (d : Int) :
+    getI (x :: xs) c d = if x.1 = c then x.2 else getI xs c d := by
+  unfold getI
+  rw [List.find?_cons]
+  by_cases h : x.1 = c <;> simp [h]
+
+theorem getI_of_not_mem {m : IMap} {c : Cand} (h : c ∉ m.map (·.1)) (d : Int) : getI m c d = d := by
+  induction m with
+  | nil => rfl
+  | cons x xs ih =>
+    simp only [List.map_cons, List.mem_cons, not_or] at h
+    rw [getI_cons, if_neg (fun e => h.1 e.symm), ih h.2]
+
+theorem sumK_prevAsSel (prev : IMap) : sumK (prevAsSel prev) = sumI prev := by
+  rw [sumK_eq, sumI_eq]; unfold prevAsSel; rw [List.map_map]; rfl
+
+theorem getK_addDict_prev (prev : IMap) (hnd : (prev.map (·.1)).Nodup) (c : Cand) :
+    ∀ s : Sel, getK (addDict s (prevAsSel prev)) (.cand c) 0 = getK s (.cand c) 0 + getI prev c 0 := by
+  induction prev with
+  | nil => intro s; simp [prevAsSel, addDict, getI_nil]
+  | cons x xs ih =>
+    intro s
+    have hnd' := List.nodup_cons.mp hnd
+    have : addDict s (prevAsSel (x :: xs)) =
+        addDict (setK s (.cand x.1) (getK s (.cand x.1) 0 + x.2)) (prevAsSel xs) := rfl
+    rw [this, ih hnd'.2, getI_cons]
+    by_cases h : x.1 = c
+    · subst h
+      rw [if_pos rfl, getK_setK_self, getI_of_not_mem hnd'.1]; ring
+    · rw [if_neg h, getK_setK_ne _ (by intro e; injection e with e; exact h e.symm)]
+
+/-- seats a party holds after the whole-quota stage, previous gains included: `max (wholeQ, prev)` -/
+def gainedQ (q : Rat) (ae : Bool) (prev : IMap) (p : Cand × Rat) : Int :=
+  wholeAward q ae prev p + getI prev p.1 0
+
+/-- may the party still take a remainder seat? (`gained < max_seats.get(c, INF)`, L380) -/
+def eligible (q : Rat) (ae : Bool) (prev maxS : IMap) (p : Cand × Rat) : Bool :=
+  match getCap maxS p.1 with
+  | some m => decide (gainedQ q ae prev p < m)
+  | none => true
+
+/-- the exact remainders `v/q − gained` of the eligible parties, in the order of `votes` -/
+def lrRems (q : Rat) (ae : Bool) (prev maxS : IMap) (votes : Votes) : Votes :=
+  votes.filterMap (fun p =>
+    if eligible q ae prev maxS p then some (p.1, p.2 / q - (gainedQ q ae prev p : Rat)) else none)
+
+theorem lrRemainders_eq (q : Rat) (ae : Bool) (prev maxS : IMap) (votes : Votes)
+    (hnd : (votes.map (·.1)).Nodup) (hpn : (prev.map (·.1)).Nodup) :
+    lrRemainders votes q (addDict (wholeSel q ae prev votes) (prevAsSel prev)) maxS =
+      lrRems q ae prev maxS votes := by
+  unfold lrRemainders lrRems
+  apply List.filterMap_congr
+  intro p hp
+  simp only
+  rw [getK_addDict_prev prev hpn, getK_wholeSel q ae prev votes hnd p hp]
+  unfold eligible gainedQ
+  cases getCap maxS p.1 <;> rfl
+
+theorem keys_lrRems_sublist (q : Rat) (ae : Bool) (prev maxS : IMap) (votes : Votes) :
+    List.Sublist ((lrRems q ae prev maxS votes).map (·.1)) (votes.map (·.1)) := by
+  unfold lrRems
+  induction votes with
+  | nil => simp
+  | cons x xs ih =>
+    rw [List.filterMap_cons]
+    split
+    · rename_i h; exact List.Sublist.cons _ ih
+    · rename_i b h
+      split at h
+      · injection h with h; subst h
+        simp only [List.map_cons]
+        exact List.Sublist.cons_cons _ ih
+      · cases h
+
+theorem mem_lrRems {q : Rat} {ae : Bool} {prev maxS : IMap} {votes : Votes} {e : Cand × Rat}
+    (h : e ∈ lrRems q ae prev maxS votes) :
+    ∃ p ∈ votes, eligible q ae prev maxS p = true ∧ e = (p.1, p.2 / q - (gainedQ q ae prev p : Rat)) := by
+  unfold lrRems at h
+  obtain ⟨p, hp, he⟩ := List.mem_filterMap.mp h
+  split at he
+  · rename_i hel; injection he with he; exact ⟨p, hp, hel, he.symm⟩
+  · cases he
+
+theorem sumK_incK (s : Sel) (k : Key) : sumK (incK s k) = sumK s + 1 := by
+  unfold incK
+  split
+  · rw [sumK_setK]; ring
+  · rename_i h
+    rw [sumK_setK, getK_of_not_hasK (by simpa using h)]; ring
+
+theorem getK_incK_self (s : Sel) (k : Key) : getK (incK s k) k 0 = getK s k 0 + 1 := by
+  unfold incK
+  split
+  · rw [getK_setK_self]
+  · rename_i h
+    rw [getK_setK_self, getK_of_not_hasK (by simpa using h)]; ring
+
+theorem getK_incK_ne (s : Sel) {k k' : Key} (h : k' ≠ k) : getK (incK s k) k' 0 = getK s k' 0 := by
+  unfold incK
+  split <;> rw [getK_setK_ne _ h]
+
+theorem sumK_foldl_incK (l : List Slot) : ∀ s : Sel,
+    sumK (l.foldl (fun acc x => incK acc (slotKey x)) s) = sumK s + l.length := by
+  induction l with
+  | nil => intro s; simp
+  | cons x xs ih =>
+    intro s
+    simp only [List.foldl_cons, List.length_cons]
+    rw [ih, sumK_incK]; push_cast; ring
+
+theorem getK_foldl_incK (l : List Slot) (k : Key) : ∀ s : Sel,
+    getK (l.foldl (fun acc x => incK acc (slotKey x)) s) k 0 = getK s k 0 + (l.map slotKey).count k := by
+  induction l with
+  | nil => intro s; simp
+  | cons x xs ih =>
+    intro s
+    simp only [List.foldl_cons, List.map_cons]
+    rw [ih]
+    by_cases h : slotKey x = k
+    · subst h
+      rw [getK_incK_self, List.count_cons_self]; push_cast; ring
+    · rw [getK_incK_ne _ (Ne.symm h), List.count_cons_of_ne h]
+
+/-! ### facts about `getNBest` used for the remainder seats -/
+
+theorem getNBest_zero (votes : Votes) : getNBest votes 0 = [] := by
+  unfold getNBest
+  simp only
+  split
+  · rename_i h
+    have h0 : 0 < (sortDesc votes).length := h
+    have e : (sortDesc votes)[0 - 1]? = some ((sortDesc votes)[0]) := List.getElem?_eq_getElem h0
+    rw [e]
+    simp
+  · rename_i h
+    have : (sortDesc votes) = [] := by
+      cases hs : sortDesc votes with
+      | nil => rfl
+      | cons a b => rw [hs] at h; simp at h
+    rw [this]; rfl
+
+theorem getNBest_shape (votes : Votes) (n : Nat) :
+    ∃ (k j : Nat) (T : List Cand), getNBest votes n =
+      ((sortDesc votes).take k).map (fun p => Slot.cand p.1) ++ List.replicate j (Slot.tie T) := by
+  unfold getNBest
+  simp only
+  split
+  · split
+    · split
+      · exact ⟨_, _, _, rfl⟩
+      · exact ⟨n, 0, [], by simp⟩
+    · exact ⟨0, 0, [], by simp⟩
+  · refine ⟨(sortDesc votes).length, 0, [], ?_⟩
+    simp
+
+theorem count_cand_getNBest_le_one (votes : Votes) (hnd : (votes.map (·.1)).Nodup) (n : Nat) (c : Cand) :
+    (getNBest votes n).count (Slot.cand c) ≤ 1 := by
+  obtain ⟨k, j, T, h⟩ := getNBest_shape votes n
+  rw [h, List.count_append]
+  have h2 : (List.replicate j (Slot.tie T)).count (Slot.cand c) = 0 := by
+    rw [List.count_eq_zero]
+    intro hm
+    have := (List.mem_replicate.mp hm).2
+    cases this
+  rw [h2, Nat.add_zero]
+  have h3 : (((sortDesc votes).take k).map (fun p => Slot.cand p.1)) =
+      (((sortDesc votes).take k).map (·.1)).map Slot.cand := by rw [List.map_map]; rfl
+  rw [h3]
+  have hsub : List.Sublist (((sortDesc votes).take k).map (·.1)) ((sortDesc votes).map (·.1)) :=
+    List.Sublist.map _ (List.take_sublist _ _)
+  have hnd2 : ((sortDesc votes).map (·.1)).Nodup :=
+    ((sortDesc_perm votes).map _).nodup_iff.mpr hnd
+  have hnd3 : ((((sortDesc votes).take k).map (·.1)).map Slot.cand).Nodup :=
+    List.Nodup.map (fun a b h => by injection h) (List.Nodup.sublist hsub hnd2)
+  exact List.nodup_iff_count_le_one.mp hnd3 _
+
+theorem cand_mem_getNBest (votes : Votes) (n : Nat) (c : Cand) (h : Slot.cand c ∈ getNBest votes n) :
+    ∃ p ∈ votes, p.1 = c := by
+  obtain ⟨k, j, T, hs⟩ := getNBest_shape votes n
+  rw [hs] at h
+  rcases List.mem_append.mp h with h | h
+  · obtain ⟨p, hp, he⟩ := List.mem_map.mp h
+    injection he with he
+    exact ⟨p, mem_sortDesc.mp (List.mem_of_mem_take hp), he⟩
+  · have := (List.mem_replicate.mp h).2
+    cases this
+
+theorem getNBest_length_eq (votes : Votes) (n : Nat) (h : n ≤ votes.length) : (getNBest votes n).length = n := by
+  rcases Nat.eq_zero_or_pos n with rfl | hpos
+  · rw [getNBest_zero]; rfl
+  · exact C09.getNBest_length votes n hpos h
+
+/-- whoever is elected has at least as much as whoever is not -/
+theorem elected_ge_unelected (votes : Votes) (hnd : (votes.map (·.1)).Nodup) (n : Nat)
+    (p p' : Cand × Rat) (hp : p ∈ votes) (hp' : p' ∈ votes)
+    (he : Slot.cand p.1 ∈ getNBest votes n) (hne : Slot.cand p'.1 ∉ getNBest votes n) : p'.2 ≤ p.2 := by
+  rcases Nat.eq_zero_or_pos n with rfl | hpos
+  · rw [getNBest_zero] at he; cases he
+  · rcases Nat.lt_or_ge n votes.length with hlt | hge
+    · obtain ⟨t, ht⟩ := nth_exists votes n hpos (le_of_lt hlt)
+      have h1 : ¬ p.2 < t := fun hlt' => (C09.below_never_elected votes hnd n hpos hlt t ht p hp hlt').1 he
+      have h2 : ¬ t < p'.2 := fun hgt =>
+        hne (C09.strictly_above_elected votes n hpos (le_of_lt hlt) t ht p' hp' hgt)
+      exact le_trans (not_lt.mp h2) (not_lt.mp h1)
+    · exfalso
+      apply hne
+      rw [getNBest_all votes n hge]
+      exact List.mem_map.mpr ⟨p', mem_sortDesc.mpr hp', rfl⟩
+
+/-- an individually elected candidate's whole level set (everybody with at least its value) fits -/
+theorem elected_cntGe_le (votes : Votes) (hnd : (votes.map (·.1)).Nodup) (n : Nat) (hlt : n < votes.length)
+    (p : Cand × Rat) (hp : p ∈ votes) (he : Slot.cand p.1 ∈ getNBest votes n) : cntGe votes p.2 ≤ n := by
+  rcases Nat.eq_zero_or_pos n with rfl | hpos
+  · rw [getNBest_zero] at he; cases he
+  · obtain ⟨t, ht⟩ := nth_exists votes n hpos (le_of_lt hlt)
+    rcases lt_trichotomy p.2 t with h | h | h
+    · exact absurd he (C09.below_never_elected votes hnd n hpos hlt t ht p hp h).1
+    · rw [h]
+      by_contra hcon
+      exact C09.not_above_not_elected_in_tie votes hnd n hpos hlt t ht (by omega) p hp (le_of_eq h) he
+    · have hle : cntGe votes p.2 ≤ cntGt votes t := by
+        unfold cntGe cntGt
+        apply List.Sublist.length_le
+        apply List.monotone_filter_right
+        intro x hx
+        simp only [decide_eq_true_eq] at hx ⊢
+        exact lt_of_lt_of_le h hx
+      have := ht.2.1
+      omega
+
+/-- a tie among the winners is the level set of the n-th value, which does not fit -/
+theorem tie_mem_getNBest (votes : Votes) (n : Nat) (T : List Cand) (h : Slot.tie T ∈ getNBest votes n) :
+    ∃ t, IsNth votes n t ∧ n < cntGe votes t ∧ T = level votes t ∧
+      (getNBest votes n).count (Slot.tie T) = n - cntGt votes t := by
+  rcases Nat.eq_zero_or_pos n with rfl | hpos
+  · rw [getNBest_zero] at h; cases h
+  · rcases Nat.lt_or_ge n votes.length with hlt | hge
+    · obtain ⟨t, ht⟩ := nth_exists votes n hpos (le_of_lt hlt)
+      rcases Nat.lt_or_ge n (cntGe votes t) with hno | hfit
+      · refine ⟨t, ht, hno, ?_⟩
+        rw [C09.getNBest_tie votes n hpos hlt t ht hno] at h ⊢
+        rcases List.mem_append.mp h with h | h
+        · obtain ⟨x, _, hx⟩ := List.mem_map.mp h; cases hx
+        · have hT : T = level votes t := by
+            have := (List.mem_replicate.mp h).2; injection this
+          refine ⟨hT, ?_⟩
+          rw [List.count_append, hT]
+          have : ((aboveSorted votes t).map (fun p => Slot.cand p.1)).count (Slot.tie (level votes t)) = 0 := by
+            rw [List.count_eq_zero]; intro hm
+            obtain ⟨x, _, hx⟩ := List.mem_map.mp hm; cases hx
+          rw [this, List.count_replicate_self]; omega
+      · exfalso
+        rw [C09.getNBest_fits votes n hpos hlt t ht hfit] at h
+        rcases List.mem_append.mp h with h | h
+        · obtain ⟨x, _, hx⟩ := List.mem_map.mp h; cases hx
+        · obtain ⟨x, _, hx⟩ := List.mem_map.mp h; cases hx
+    · exfalso
+      rw [getNBest_all votes n hge] at h
+      obtain ⟨x, _, hx⟩ := List.mem_map.mp h; cases hx
+
+theorem mem_lrRems_of {q : Rat} {ae : Bool} {prev maxS : IMap} {votes : Votes} {p : Cand × Rat}
+    (hp : p ∈ votes) (hel : eligible q ae prev maxS p = true) :
+    (p.1, p.2 / q - (gainedQ q ae prev p : Rat)) ∈ lrRems q ae prev maxS votes := by
+  unfold lrRems
+  rw [List.mem_filterMap]
+  exact ⟨p, hp, by rw [if_pos hel]⟩
+
+theorem count_slotKey_cand (l : List Slot) (c : Cand) :
+    (l.map slotKey).count (Key.cand c) = l.count (Slot.cand c) := by
+  induction l with
+  | nil => rfl
+  | cons x xs ih =>
+    rw [List.map_cons]
+    cases x with
+    | cand c' =>
+      by_cases h : c' = c
+      · subst h; simp [slotKey, ih]
+      · have h1 : slotKey (Slot.cand c') ≠ Key.cand c := by
+          intro e; simp only [slotKey] at e; injection e with e; exact h e
+        have h2 : Slot.cand c' ≠ Slot.cand c := by intro e; injection e with e; exact h e
+        rw [List.count_cons_of_ne h1, List.count_cons_of_ne h2, ih]
+    | tie T =>
+      have h1 : slotKey (Slot.tie T) ≠ Key.cand c := by
+        intro e; simp only [slotKey, mkTie] at e; cases e
+      have h2 : Slot.tie T ≠ Slot.cand c := by intro e; cases e
+      rw [List.count_cons_of_ne h1, List.count_cons_of_ne h2, ih]
+
+theorem getK_wholeSel_tie (q : Rat) (ae : Bool) (prev : IMap) (votes : Votes) (T : List Cand) :
+    getK (wholeSel q ae prev votes) (Key.tie T) 0 = 0 := by
+  apply getK_of_not_hasK
+  rw [← Bool.not_eq_true]
+  intro hh
+  obtain ⟨p, _, he⟩ := mem_keys_wholeSel ((hasK_iff _ _).mp hh)
+  cases he
+
+/-- a candidate whose whole level set (everybody with at least its value) fits is elected individually -/
+theorem cntGe_le_elected (votes : Votes) (n : Nat) (p : Cand × Rat) (hp : p ∈ votes)
+    (h : cntGe votes p.2 ≤ n) : Slot.cand p.1 ∈ getNBest votes n := by
+  have hself : 1 ≤ cntGe votes p.2 := by
+    unfold cntGe
+    apply List.length_pos_of_mem (a := p)
+    rw [List.mem_filter]
+    exact ⟨hp, by simp⟩
+  rcases Nat.lt_or_ge n votes.length with hlt | hge
+  · have hpos : 1 ≤ n := by omega
+    obtain ⟨t, ht⟩ := nth_exists votes n hpos (le_of_lt hlt)
+    rcases lt_trichotomy p.2 t with hl | he | hg
+    · exfalso
+      have hsub : List.Sublist (votes.filter (fun x => decide (t ≤ x.2))) (votes.filter (fun x => decide (p.2 ≤ x.2))) := by
+        apply List.monotone_filter_right
+        intro x hx
+        simp only [decide_eq_true_eq] at hx ⊢
+        exact le_trans (le_of_lt hl) hx
+      have hlen : cntGe votes t ≤ cntGe votes p.2 := hsub.length_le
+      have hn := ht.2.2
+      have heq : cntGe votes t = cntGe votes p.2 := by omega
+      have := hsub.eq_of_length heq
+      have hpm : p ∈ votes.filter (fun x => decide (p.2 ≤ x.2)) := by
+        rw [List.mem_filter]; exact ⟨hp, by simp⟩
+      rw [← this, List.mem_filter] at hpm
+      simp only [decide_eq_true_eq] at hpm
+      exact absurd hpm.2 (not_le.mpr hl)
+    · rw [he] at h
+      exact C09.level_all_elected votes n hpos hlt t ht h p hp he
+    · exact C09.strictly_above_elected votes n hpos (le_of_lt hlt) t ht p hp hg
+  · rw [getNBest_all votes n hge]
+    exact List.mem_map.mpr ⟨p, mem_sortDesc.mpr hp, rfl⟩
+
+theorem cntGe_one_le_sum (l : Votes) (h : ∀ e ∈ l, 0 ≤ e.2) : ((cntGe l 1 : Nat) : Rat) ≤ (l.map (·.2)).sum := by
+  induction l with
+  | nil => simp [cntGe]
+  | cons x xs ih =>
+    have hx := h x List.mem_cons_self
+    have := ih (fun e he => h e (List.mem_cons_of_mem _ he))
+    unfold cntGe at this ⊢
+    rw [List.filter_cons]
+    simp only [List.map_cons, List.sum_cons]
+    by_cases h1 : (1 : Rat) ≤ x.2
+    · simp only [h1, decide_true, if_true, List.length_cons]
+      push_cast; linarith
+    · simp only [h1, decide_false]
+      simp only [Bool.false_eq_true, if_false]
+      linarith
+
+theorem cntGe_zero_eq_length (l : Votes) (h : ∀ e ∈ l, 0 ≤ e.2) : cntGe l 0 = l.length := by
+  unfold cntGe
+  rw [List.filter_eq_self.mpr]
+  intro e he
+  simpa using h e he
+
+/-! ### sums: exact quotas fill the house -/
+
+theorem sumVals_eq (votes : Votes) : sumVals votes = (votes.map (·.2)).sum := by
+  unfold sumVals
+  have : ∀ a : Rat, votes.foldl (fun acc p => acc + p.2) a = a + (votes.map (·.2)).sum := by
+    induction votes with
+    | nil => simp
+    | cons x xs ih => intro a; simp only [List.foldl_cons, List.map_cons, List.sum_cons]; rw [ih]; ring
+  rw [this]; simp
+
+theorem sumK_wholeSel (q : Rat) (ae : Bool) (prev : IMap) (votes : Votes) :
+    sumK (wholeSel q ae prev votes) = (votes.map (wholeAward q ae prev)).sum := by
+  induction votes with
+  | nil => rfl
+  | cons x xs ih =>
+    rw [wholeSel_cons, List.map_cons, List.sum_cons]
+    by_cases h : 0 < wholeAward q ae prev x
+    · rw [if_pos h, sumK_cons, ih]
+    · rw [if_neg h, ih]
+      have := wholeAward_nonneg q ae prev x
+      omega
+
+theorem wholeAward_nil {q : Rat} (hq : 0 < q) (ae : Bool) (p : Cand × Rat) (hv : 0 ≤ p.2) :
+    wholeAward q ae [] p = wholeQ q ae p.2 := by
+  unfold wholeAward
+  rw [getI_nil]
+  have := wholeQ_nonneg hq ae hv
+  rw [max_eq_left (by omega)]; ring
+
+/-- the exact remainder after the whole quotas lies in `[0, 1]` (it is `1` only on the `accept_equal` edge) -/
+theorem rem_bounds {q : Rat} (hq : 0 < q) (ae : Bool) {v : Rat} :
+    0 ≤ v / q - (wholeQ q ae v : Rat) ∧ v / q - (wholeQ q ae v : Rat) ≤ 1 := by
+  unfold wholeQ
+  split
+  · rename_i h
+    rw [h.1, div_self (ne_of_gt hq)]; simp
+  · have h1 := Int.floor_le (v / q)
+    have h2 := Int.lt_floor_add_one (v / q)
+    constructor <;> linarith
+
+theorem sum_rems (q : Rat) (ae : Bool) (votes : Votes) :
+    (votes.map (fun p => p.2 / q - (wholeQ q ae p.2 : Rat))).sum =
+      (votes.map (·.2)).sum / q - (((votes.map (fun p => wholeQ q ae p.2)).sum : Int) : Rat) := by
+  induction votes with
+  | nil => simp
+  | cons x xs ih =>
+    simp only [List.map_cons, List.sum_cons, ih]
+    push_cast
+    rw [add_div]; ring
+
+theorem sum_unit_bounds (l : List Rat) (h : ∀ x ∈ l, 0 ≤ x ∧ x ≤ 1) : 0 ≤ l.sum ∧ l.sum ≤ l.length := by
+  induction l with
+  | nil => simp
+  | cons x xs ih =>
+    have hx := h x List.mem_cons_self
+    have := ih (fun y hy => h y (List.mem_cons_of_mem _ hy))
+    simp only [List.sum_cons, List.length_cons]
+    push_cast
+    constructor <;> linarith [hx.1, hx.2, this.1, this.2]
+
+theorem sum_unit_le_pred (l : List Rat) (h : ∀ x ∈ l, 0 ≤ x ∧ x ≤ 1) (hz : (0 : Rat) ∈ l) :
+    l.sum ≤ (l.length : Rat) - 1 := by
+  induction l with
+  | nil => cases hz
+  | cons x xs ih =>
+    have hx := h x List.mem_cons_self
+    have hb := sum_unit_bounds xs (fun y hy => h y (List.mem_cons_of_mem _ hy))
+    simp only [List.sum_cons, List.length_cons]
+    push_cast
+    rcases List.mem_cons.mp hz with h0 | h0
+    · rw [← h0]; linarith [hb.2]
+    · have := ih (fun y hy => h y (List.mem_cons_of_mem _ hy)) h0
+      linarith [hx.2]
+
+theorem list_sum_nonneg (l : List Rat) (h : ∀ x ∈ l, 0 ≤ x) : 0 ≤ l.sum := by
+  induction l with
+  | nil => simp
+  | cons y ys ih =>
+    simp only [List.sum_cons]
+    have := ih (fun z hz => h z (List.mem_cons_of_mem _ hz))
+    linarith [h y List.mem_cons_self]
+
+theorem mem_le_sum (l : List Rat) (h : ∀ x ∈ l, 0 ≤ x) (x : Rat) (hx : x ∈ l) : x ≤ l.sum := by
+  induction l with
+  | nil => cases hx
+  | cons y ys ih =>
+    have hy := h y List.mem_cons_self
+    have hs : 0 ≤ ys.sum := list_sum_nonneg ys (fun z hz => h z (List.mem_cons_of_mem _ hz))
+    simp only [List.sum_cons]
+    rcases List.mem_cons.mp hx with rfl | hx'
+    · linarith
+    · have := ih (fun z hz => h z (List.mem_cons_of_mem _ hz)) hx'
+      linarith
+
+theorem sum_map_div (q : Rat) (votes : Votes) :
+    (votes.map (fun p => p.2 / q)).sum = (votes.map (·.2)).sum / q := by
+  induction votes with
+  | nil => simp
+  | cons x xs ih => simp only [List.map_cons, List.sum_cons, ih]; rw [add_div]
+
+/-- without previous gains and caps every party is eligible and its remainder is `v/q − wholeQ` -/
+theorem lrRems_plain {q : Rat} (hq : 0 < q) (ae : Bool) (votes : Votes) (hv : ∀ p ∈ votes, 0 ≤ p.2) :
+    lrRems q ae [] [] votes = votes.map (fun p => (p.1, p.2 / q - (wholeQ q ae p.2 : Rat))) := by
+  unfold lrRems
+  rw [← List.filterMap_eq_map]
+  apply List.filterMap_congr
+  intro p hp
+  have he : eligible q ae [] [] p = true := rfl
+  rw [if_pos he]
+  unfold gainedQ
+  rw [wholeAward_nil hq ae p (hv p hp), getI_nil]
+  simp
+
+theorem totalAwarded_plain_aux {q : Rat} (hq : 0 < q) (ae : Bool) (votes : Votes) (hv : ∀ p ∈ votes, 0 ≤ p.2) :
+    sumK (wholeSel q ae [] votes) = (votes.map (fun p => wholeQ q ae p.2)).sum := by
+  rw [sumK_wholeSel]
+  congr 1
+  apply List.map_congr_left
+  intro p hp
+  exact wholeAward_nil hq ae p (hv p hp)
 
 end QD
 end VL
